@@ -219,3 +219,18 @@ func verifClientPushPeek[T any](h Heap[T], v T) {
 //@   after call New[0]: ghost callresult.indexChanged.tracks := true
 //@   ensures pqInv(result) && fresh(result.inner) && fresh(result.m)
 //@   ensures forall t int {old(initial[t])} :: 0 <= t && t < len(initial) ==> inHeap(result, old(initial[t]).K)
+
+// Iterate: a Map (projection to the key) over the heap's own snapshot-or-panic iterator; the
+// behaviour under modification is that of heap.heapIterator.Next (proved in internal/heap) seen
+// through iterator.mapIterator.Next (proved in iterator).
+//@ func PriorityQueue.Iterate
+//@   props C15
+//@   requires h.inner != nil
+//@   ensures fresh(result)
+//@   ensures let mi = result.(*iterator.mapIterator[KP[K, P], K]) in mi.inner.(*heap.heapIterator[KP[K, P]]).h == h.inner && mi.inner.(*heap.heapIterator[KP[K, P]]).gen == -1
+//@       && (forall kp KP[K, P] {mi.f(kp)} :: mi.f(kp) == kp.K)
+
+//@ func Heap.Iterate
+//@   props C15
+//@   requires h.inner != nil
+//@   ensures fresh(result) && result.(*heap.heapIterator[T]).h == h.inner && result.(*heap.heapIterator[T]).gen == -1
